@@ -456,3 +456,11 @@ func Parallel(n int, f func(i int)) {
 	}
 	wg.Wait()
 }
+
+// RepoDir is the pdfcpu tree under test (/repo unless VERIF_REPO points at a scratch worktree).
+func RepoDir() string {
+	if d := os.Getenv("VERIF_REPO"); d != "" {
+		return d
+	}
+	return "/repo"
+}
